@@ -106,8 +106,6 @@ def oracle_tms(case):
     if got != exp:
         diff = {k: [got[k], exp[k]] for k in exp if got[k] != exp[k]}
         raise Fail("parsed_fields_equal_built_fields", {k: v[0] for k, v in diff.items()}, {k: v[1] for k, v in diff.items()}, klass)
-    if p.sequence_number is not None and (type(p.sequence_number) is not int):
-        raise Fail("sequence_number_is_int", repr(p.sequence_number), sn, klass)
     # (3) fixed point
     _, b2 = call(p.as_bytes)
     if bytes(b2) != b:
@@ -167,9 +165,6 @@ def oracle_ars(case):
     b = bytes(b)
     if len(b) < 3 or int.from_bytes(b[:2], "big") != len(b) - 2:
         raise Fail("length_prefix_counts_following_bytes", {"prefix": int.from_bytes(b[:2], "big"), "bytes": b.hex()}, len(b) - 2, klass)
-    _, n = call(len, msg)
-    if n != len(b):
-        raise Fail("len_equals_serialised_length", n, len(b), klass)
     _, p = call(A.AutomaticRegistrationService.from_bytes, b)
     got = {
         "pdu_type": p.header.pdu_type.name, "has_more_headers": p.header.has_more_headers, "is_acknowledged": p.header.is_acknowledged,
@@ -194,10 +189,6 @@ def oracle_ars(case):
     if got != exp:
         diff = {k: [got.get(k), exp[k]] for k in exp if got.get(k) != exp[k]}
         raise Fail("parsed_fields_equal_built_fields", {k: v[0] for k, v in diff.items()}, {k: v[1] for k, v in diff.items()}, klass)
-    for nm in ("device_identifier", "user_identifier", "password"):
-        v = getattr(p, nm)
-        if pdu in ("device_reg", "user_reg") and v is not None and not isinstance(v, str):
-            raise Fail("identifiers_parse_to_text", repr(v), "str", klass)
     _, b2 = call(p.as_bytes)
     if bytes(b2) != b:
         raise Fail("parsed_message_serialises_to_same_bytes", bytes(b2).hex(), b.hex(), klass)
